@@ -32,6 +32,7 @@
      Authentic         whatever a member's qbft core received in the name of an honest member (top level or inside a
                        justification) was sent by that member (the transcript against the wire);
      TimelyDecision    (eager timer) a member decides before the doubled deadline of the highest round it was in;
+     OneInstance, SendOrder   one qbft process per member and duty: one transcript, rounds on the wire never go back;
      NoInstanceError, InstancesExpire. *)
 EXTENDS QBFTTimedTrace
 CONSTANT DevStopOnDecide   \* FALSE: the property as stated.  TRUE (deviation cfg, finding C04-component-stops-on-decide): a running
@@ -117,6 +118,13 @@ SendRound == JustDid("Send") /\ Prev.p \in Honest /\ st[Prev.p].running /\ ~st[P
 SniffBases(s) == UNION {{Strip(MsgOf(x.m))} \cup {Norm(BaseOf(b)) : b \in SeqToSet(x.m.just)} : x \in SeqToSet(s.msgs)}
 \* (the member's own messages are looped back inside the component and need not have reached the wire: a crashed member)
 Authentic == JustDid("Sniff") => \A b \in SniffBases(Prev) : (b.src \in Honest /\ b.src # Prev.p) => b \in HonestSent
+\* One qbft process per member and duty (QBFT.tla's `st[p]` is ONE process): the component hands one transcript to the sniffer,
+\* and what a member puts on the wire never goes back to a lower round at a later (virtual) time - PRE-PREPARE, PREPARE, COMMIT
+\* are sent for the current round, ROUND-CHANGE for the new one, rounds only grow (DECIDED carries the round decided in)
+OneInstance == JustDid("Sniff") => Cardinality({i \in 1..(l - 1) : Trace[i].ev = "Sniff" /\ Trace[i].p = Prev.p}) = 1
+SendOrder == (JustDid("Send") /\ Prev.p \in Honest /\ Prev.m.type # "D") =>
+               \A i \in 1..(l - 2) : (Trace[i].ev = "Send" /\ Trace[i].p = Prev.p /\ Trace[i].m.type # "D" /\ Trace[i].now < Prev.now)
+                                        => Trace[i].m.round <= Prev.m.round
 TimelyDecision == (ended /\ Timely /\ Cfg.timer = "eager") =>
                      \A p \in Running(st) : st[p].decided => dtime[p] <= 2 * (Cfg.roundms * rmax[p] + Cfg.extrams)
 Undecided == {p \in Running(st) : ~st[p].decided}
@@ -131,6 +139,7 @@ CMark == /\ CheckInv("Agreement", Agreement) /\ CheckInv("DecideOnce", DecideOnc
          /\ CheckInv("OneVotePerRound", OneVotePerRound) /\ CheckInv("NoHonestUnjust", NoHonestUnjust)
          /\ CheckInv("HonestJustified", HonestJustified) /\ CheckInv("HonestLeader", HonestLeader)
          /\ CheckInv("SendRound", SendRound) /\ CheckInv("NoHonestReject", NoHonestReject)
+         /\ CheckInv("OneInstance", OneInstance) /\ CheckInv("SendOrder", SendOrder)
          /\ CheckInv("Authentic", Authentic) /\ CheckInv("NoInstanceError", ~runerr)
          /\ CheckInv("InstancesExpire", leftover = 0)
          /\ CheckInv("BoundedDecision", BoundedDecisionT) /\ CheckInv("TimelyDecision", TimelyDecision)
